@@ -722,6 +722,8 @@ Definition render_origin (s : str) : list str :=
      | [] => []
      | l :: r => (pad_left 9 (dec_of_nat pos) ++ sp :: join [sp] (groups 7 10 l)) :: go r (pos + 60)%nat
      end) lines 1%nat.
+Definition origin_positions (s : str) : list nat :=
+  map (fun i => (1 + 60 * i)%nat) (List.seq 0 (length (groups (S (length s)) 60 s))).
 Definition feat_header : str := bs "FEATURES             Location/Qualifiers"%bs.
 Definition origin_line : str := bs "ORIGIN"%bs.
 Definition render_rec (r : arec) : list str :=
@@ -732,11 +734,9 @@ Definition render_gb (rs : list arec) : str :=
 
 (* what the property says reading must give *)
 Definition k_ACCESSION : str := bs "ACCESSION"%bs.
-Definition view_id (r : arec) : option str :=
-  match filter (fun h => str_eqb (hk h) k_ACCESSION) (ahdr r) with
-  | h :: _ => match hlines h with l :: _ => first_word l | [] => None end
-  | [] => None
-  end.
+Definition acc_step (o : option str) (h : hfield) : option str :=
+  if str_eqb (hk h) k_ACCESSION then match hlines h with l :: _ => first_word l | [] => None end else o.
+Definition view_id (r : arec) : option str := fold_left acc_step (ahdr r) None.
 Definition is_flag (q : qual) : bool := match q with QFlag _ => true | _ => false end.
 Definition flag_names (qs : list qual) : list str :=
   flat_map (fun q => match q with QFlag k => [k] | _ => [] end) qs.
@@ -782,7 +782,7 @@ Definition reserved : list str :=
    bs "setdefault"%bs; bs "clear"%bs; bs "popitem"%bs].
 (* a text line of a header value: printable, no blanks at the ends, not the record terminator *)
 Definition wf_text (s : str) : bool :=
-  forallb printable s && nonempty s && str_eqb (strip s) s && negb (str_eqb s sl2).
+  forallb printable s && nonempty s && negb (is_ws (hd sp s)) && negb (is_ws (last s sp)) && negb (str_eqb s sl2).
 Definition wf_hfield (h : hfield) : bool :=
   nonempty (hk h) && forallb is_upper (hk h) && (length (hk h) <=? 10)%nat
   && negb (str_eqb (lower (hk h)) k_features) && negb (mem (lower (hk h)) reserved)
@@ -818,9 +818,13 @@ Definition wf_arec (r : arec) : bool :=
   forallb wf_hfield (ahdr r)
   && (length (filter (fun h => str_eqb (hk h) k_ACCESSION) (ahdr r)) <=? 1)%nat
   && forallb wf_afeat (afts r)
-  && forallb is_alpha (aseq r).
+  && forallb is_alpha (aseq r)
+  (* the ORIGIN line numbers fit their 9-column field (fewer than 10^9 residues) *)
+  && forallb (fun p => all_digits (dec_of_nat p) && (length (dec_of_nat p) <=? 9)%nat) (origin_positions (aseq r)).
 Definition wf_C10 (excl : list str) (rs : list arec) : bool :=
-  nonempty rs && forallb wf_arec rs.
+  nonempty rs && forallb wf_arec rs
+  (* no rendered line contains a newline (implied by the character classes above; kept as a checked condition) *)
+  && forallb (fun l => negb (has nl l)) (flat_map render_rec rs).
 
 (* ---- values for the harness ---- *)
 Definition v_loc (l : loc) : val := VL [VI (lstart l); VI (lstop l); VS [lstrand l]; VI (Z.of_N (ldefect l))].
